@@ -17,6 +17,8 @@ Gte(a, b, M, m) == a > M \/ (a = M /\ b >= m)
 Lt(a, b, M, m) == ~Gte(a, b, M, m)
 Enc2(M, m) == M * 256 + m
 
+USE DEF Byte
+
 LEMMA GteIsEncoding ==
     ASSUME NEW a \in Byte, NEW b \in Byte, NEW M \in Byte, NEW m \in Byte
     PROVE  Gte(a, b, M, m) <=> Enc2(a, b) >= Enc2(M, m)
